@@ -602,3 +602,102 @@ def abbrev(repo):
     res.samples = ["abbreviation registered with _Scope.PRIVATE in _add_struct_field_to_scope"]
     res.analysed = sorted(allowed_files)
     return res
+
+
+# ---- R-SPELL -----------------------------------------------------------------------------------
+def spell(repo):
+    """Generated-identifier collision analysis for the members of a generated view class.
+
+    Member-name schemas come from the class-scope templates and from header_generator's literal
+    format strings; user-spellable languages from the tokenizer regexes minus reserved words.
+    A collision is reported with a concrete witness (a pair of legal Emboss names)."""
+    from .. import grammar as G
+    res = RuleResult("R-SPELL")
+    tp = Templates(repo)
+    lits, regs = G.tokenizer_tables(repo)
+    sym_re = {}
+    for pat, sym, _ in regs:
+        sym_re.setdefault(sym, []).append(re.compile(pat))
+    if "SnakeWord" not in sym_re or "CamelWord" not in sym_re:
+        raise AnalysisError("tokenizer: SnakeWord/CamelWord patterns not found")
+    reserved = set()
+    for line in repo.read("compiler/front_end/reserved_words").splitlines():
+        w = line.partition("#")[0].strip()
+        if w and not w.startswith("--"):
+            reserved.add(w)
+    bad_prefix = [re.compile(p) for p, s, _ in regs if s == "BadWord" and "eserved" in p.lower()]
+
+    def spellable(word, kind):
+        if word in reserved or word in lits:
+            return False
+        if any(b.fullmatch(word) for b in bad_prefix):
+            return False
+        return any(r.fullmatch(word) for r in sym_re[kind])
+
+    cls = tp["structure_view_class"]["text"]
+    start = cls.find("class Generic${name}View final {")
+    end = cls.find("\n};", start)
+    if start < 0 or end < 0:
+        raise AnalysisError("structure_view_class: class body not found")
+    body = re.sub(r"\$\{\w+\}", " ", cls[start:end])
+    constants = set()
+    # method names: identifier followed by '(' at class nesting depth 1, excluding control keywords and calls in bodies
+    depth = 0
+    i = 0
+    tok = re.compile(r"[A-Za-z_]\w*|[{}();]")
+    toks = [(m.group(0), m.start()) for m in tok.finditer(body)]
+    for k, (t, pos) in enumerate(toks):
+        if t == "{":
+            depth += 1
+        elif t == "}":
+            depth -= 1
+        elif depth == 1 and re.match(r"[A-Za-z_]", t) and k + 1 < len(toks) and toks[k + 1][0] == "(":
+            if t not in ("if", "for", "while", "switch", "return", "sizeof", "decltype", "static_cast", "operator", "enable_if", "forward") \
+                    and body[pos - 1:pos] != "<":
+                constants.add(t)
+        elif depth == 1 and re.match(r"[a-z_]\w*_$", t) and k + 1 < len(toks) and toks[k + 1][0] == ";":
+            constants.add(t)
+    constants -= {"Generic", "View", "explicit", "template", "typename", "const", "constexpr", "static", "friend", "class"}
+    # members declared by header_generator literals
+    hg = repo.mod(HG)
+    hsrc = repo.read(HG)
+    for m in re.finditer(r'flag_name\s*=\s*"(\w+)"', hsrc):
+        constants.add(m.group(1))
+    param_member_schema = bool(re.search(r'"\{\}\s+\{\}_;"', hsrc))
+    field_decl = tp["structure_single_field_method_declarations"]["text"] if "structure_single_field_method_declarations" in tp else ""
+    has_schema = "has_${name}" in field_decl
+    using_schema = "using ${name}" in (tp["enum_using_statement"]["text"] if "enum_using_statement" in tp else "")
+    res.detail = {"constant_members": sorted(constants), "schemas": ["${name}", "has_${name}" if has_schema else None,
+                                                                     "${name}_" if param_member_schema else None,
+                                                                     "using ${Name}" if using_schema else None]}
+    # A. constant members spellable as a field name
+    for c in sorted(constants):
+        res.instances += 1
+        if spellable(c, "SnakeWord"):
+            res.add(f"spell|constant|{c}", f"the generated view class has a member `{c}`; `{c}` is also a legal Emboss field "
+                    f"name, whose accessor `{c}()` would clash with it (header does not compile)", TEMPLATES,
+                    tp["structure_view_class"]["line"])
+    camel_const = sorted(c for c in constants if spellable(c, "CamelWord"))
+    res.instances += 1
+    if using_schema and camel_const:
+        # an inline `enum foo_bar` inside a struct is named FooBar and imported with `using FooBar = ...`
+        res.add("spell|using-vs-method", f"inline enum types are imported into the view class with `using <CamelName>`; "
+                f"{len(camel_const)} methods of the class are legal CamelCase type names (e.g. inline `enum ok` -> "
+                f"`using Ok` vs `Ok()`): {camel_const[:8]}…", TEMPLATES, tp["enum_using_statement"]["line"])
+    # B. schema pairs, with witnesses
+    pairs = []
+    if has_schema:
+        pairs.append(("has_${name}", "${name}", "has_x", "x"))
+    if param_member_schema:
+        pairs.append(("${name}_", "${name}", "x_", "x (parameter) + x_ (field)"))
+    if has_schema and param_member_schema:
+        pairs.append(("has_${name}", "${name}_", "has_g_", "g_ (field) + has_g (parameter)"))
+    for a, b, witness, how in pairs:
+        res.instances += 1
+        if spellable(witness.rstrip("_") if False else witness, "SnakeWord"):
+            res.add(f"spell|pair|{a}|{b}", f"member schemas `{a}` and `{b}` can produce the same identifier `{witness}` "
+                    f"({how}); both names are legal in one structure and the generated class declares the identifier twice",
+                    TEMPLATES, tp["structure_single_field_method_declarations"]["line"])
+    res.samples = [f"constants: {sorted(constants)[:6]}", f"pairs: {[(a, b) for a, b, _, _ in pairs]}"]
+    res.analysed = [TEMPLATES, HG, G.TOKENIZER, "compiler/front_end/reserved_words"]
+    return res
